@@ -5,7 +5,7 @@ base = dict(NTx=3, Kind="KindS", Sender="SenderS", Nonce="NonceS", NAccs=1, Star
             NConsumers=0, Batch=2, MaxPush=4, MaxBlocks=1, MaxFail=0, MaxCrash=1, MaxClose=1, MaxPops=2, MaxExecErr=0,
             MaxFatal=0, DedupFix="TRUE", OverflowFix="TRUE", Mutant='"none"')
 SAFE = ("TypeOK ExactlyOnceFIFO DbConsistent DbIsLog DurablePrefix NothingDropped CloseFlushesAll SameOrder "
-        "NoLostWakeup ExecBatchBound")
+        "NoLostWakeup TokenAfterAppend ExecBatchBound")
 ACT = "RejectHasNoEffect CapacityOnPush StrictCapacityOnPush ReloadIsTheLog"
 
 
@@ -48,14 +48,14 @@ cfg("Mempool_live.cfg", "liveness under fairness (no crash / close / fatal execu
 # ---- the code as it is (both switches FALSE): what holds in spite of the defects
 cfg("Mempool_ascoded.cfg", "the code as it is: what holds in spite of the two defects",
     dict(DedupFix="FALSE", OverflowFix="FALSE", NConsumers=1, MaxPush=3, MaxPops=1),
-    inv="TypeOK ExactlyOnceFIFO NoLostWakeup ExecBatchBound", props=ACT)
+    inv="TypeOK ExactlyOnceFIFO NoLostWakeup TokenAfterAppend ExecBatchBound", props=ACT)
 cfg("Mempool_ascoded_quick.cfg", "the code as it is (quick tier): no crash",
     dict(DedupFix="FALSE", OverflowFix="FALSE", NConsumers=1, MaxPush=3, MaxPops=1, MaxCrash=0),
-    inv="TypeOK ExactlyOnceFIFO NoLostWakeup ExecBatchBound", props=ACT)
+    inv="TypeOK ExactlyOnceFIFO NoLostWakeup TokenAfterAppend ExecBatchBound", props=ACT)
 cfg("Mempool_ascoded_conc.cfg", "the code as it is, two concurrent pushers and a listener",
     dict(DedupFix="FALSE", OverflowFix="FALSE", NTx=2, NPushers=2, NConsumers=1, MaxPush=3, MaxCrash=0, MaxClose=1, MaxPops=1,
          MaxBlocks=0, MaxExecErr=1, MaxFatal=1),
-    inv="TypeOK ExactlyOnceFIFO NoLostWakeup ExecBatchBound", props=CONC_ACT)
+    inv="TypeOK ExactlyOnceFIFO NoLostWakeup TokenAfterAppend ExecBatchBound", props=CONC_ACT)
 cfg("Mempool_live_ascoded.cfg", "liveness, as coded",
     dict(NTx=2, NPushers=2, NConsumers=1, MaxPush=3, MaxCrash=0, MaxClose=0, MaxPops=0, MaxBlocks=0, DedupFix="FALSE",
          OverflowFix="FALSE"), inv="TypeOK", props="EventuallyDrained EventuallyPersisted", spec="FairSpec")
@@ -76,10 +76,10 @@ cfg("Mempool_x_order.cfg", "EXPECTED VIOLATION SameOrder: two concurrent pushers
     dict(NTx=2, NPushers=2, MaxPush=2, MaxCrash=0, MaxClose=0, MaxPops=0, MaxBlocks=0, DedupFix="FALSE", OverflowFix="FALSE"),
     inv="SameOrder", props="")
 # ---- expected violations: mutants (each remaining property can fail)
-for m, prop, kind in [("sigfirst", "NoLostWakeup", "inv"), ("lifo", "ExactlyOnceFIFO", "inv"), ("latefull", "RejectHasNoEffect", "prop"),
+for m, prop, kind in [("sigfirst", "NoLostWakeup", "inv"), ("sigfirst2", "TokenAfterAppend", "inv"), ("lifo", "ExactlyOnceFIFO", "inv"), ("latefull", "RejectHasNoEffect", "prop"),
                       ("nodrain", "CloseFlushesAll", "inv"), ("splitlen", "DbConsistent", "inv"), ("loadrev", "ReloadIsTheLog", "prop"),
                       ("nocap", "CapacityOnPush", "prop"), ("bigbatch", "ExecBatchBound", "inv"), ("skipwrite", "DurablePrefix", "inv")]:
     cfg("Mempool_x_%s.cfg" % m, "EXPECTED VIOLATION %s: mutant %s" % (prop, m),
-        dict(Mutant='"%s"' % m, NConsumers=1 if m in ("sigfirst", "bigbatch") else 0, MaxCrash=1 if m in ("splitlen", "loadrev") else 0,
+        dict(Mutant='"%s"' % m.rstrip("2"), NConsumers=1 if m in ("sigfirst", "bigbatch") else 0, MaxCrash=1 if m in ("splitlen", "loadrev") else 0,
              Batch=1 if m == "bigbatch" else 2),
         inv=prop if kind == "inv" else "", props=prop if kind == "prop" else "")
